@@ -391,6 +391,10 @@ impl CompassApp {
             .collect();
         let load_balanced_inputs =
             ops::apply_load_balancing_policy(&processed_inputs, parallelism, 1.0)?;
+        #[cfg(feature = "verif_hooks")]
+        routee_compass_core::verif::emit(routee_compass_core::verif::Event::LoadBalanced(
+            &load_balanced_inputs,
+        ));
         let error_inputs: Vec<Value> = error_inputs_nested.into_iter().flatten().collect();
         if load_balanced_inputs.is_empty() {
             return Ok(error_inputs);
@@ -485,8 +489,12 @@ pub fn run_single_query(
     output_plugins: &[Arc<dyn OutputPlugin>],
     search_app: &SearchApp,
 ) -> Result<serde_json::Value, CompassAppError> {
+    #[cfg(feature = "verif_hooks")]
+    routee_compass_core::verif::emit(routee_compass_core::verif::Event::QueryStart(query));
     let search_result = search_app.run(query, search_orientation);
     let output = apply_output_processing(query, search_result, search_app, output_plugins);
+    #[cfg(feature = "verif_hooks")]
+    routee_compass_core::verif::emit(routee_compass_core::verif::Event::QueryEnd(&output));
     Ok(output)
 }
 
@@ -521,7 +529,15 @@ pub fn run_batch_with_responses(
                     if let Ok(mut pb_local) = pb.lock() {
                         let _ = pb_local.update(1);
                     }
+                    #[cfg(feature = "verif_hooks")]
+                    routee_compass_core::verif::emit(
+                        routee_compass_core::verif::Event::BeforeWrite(&response),
+                    );
                     response_writer.write_response(&mut response)?;
+                    #[cfg(feature = "verif_hooks")]
+                    routee_compass_core::verif::emit(
+                        routee_compass_core::verif::Event::AfterWrite(&response),
+                    );
                     Ok(response)
                 })
                 .collect::<Result<Vec<serde_json::Value>, CompassAppError>>()
@@ -559,7 +575,15 @@ pub fn run_batch_without_responses(
                 if let Ok(mut pb_local) = pb.lock() {
                     let _ = pb_local.update(1);
                 }
+                #[cfg(feature = "verif_hooks")]
+                routee_compass_core::verif::emit(routee_compass_core::verif::Event::BeforeWrite(
+                    &response,
+                ));
                 response_writer.write_response(&mut response)?;
+                #[cfg(feature = "verif_hooks")]
+                routee_compass_core::verif::emit(routee_compass_core::verif::Event::AfterWrite(
+                    &response,
+                ));
                 Ok(())
             });
             Ok(())
